@@ -886,10 +886,12 @@ static void part_perm(Report& rp, bool quick) {
 
 int main(int argc, char** argv) {
     hm::Args a = hm::parse(argc, argv);
+    hm::install_crash_reporter("ykenum");
     std::string part = a.extra.empty() ? "perm" : a.extra[0];
     bool quick = a.tier == "quick";
     Report rp;
     rp.part = part + (a.nshards > 1 ? "/shard" + std::to_string(a.shard) : "");
+    hm::crash_part(rp.part, "enum");
     double t0 = ykmc::mono_now();
     if (part == "putinfo") part_putinfo(rp, quick, a.shard, a.nshards);
     else if (part == "values") part_values(rp, quick, a.shard, a.nshards);
